@@ -287,7 +287,7 @@ def sec256_blobs(length, pfx, xc, yc):
                 y = (y + 1) % P
         else:           # "root+p"
             y = (t["smally"][1] if xc == "pt" else 3) + P
-        body = x.to_bytes(32, "big") + y.to_bytes(32, "big") + b"\0"
+        body = x.to_bytes(32, "big") + y.to_bytes(32, "big") + bytes(16)
         blob = b"" if length == 0 else bytes([pfx]) + body[:length - 1]
         out.append((blob, x if length >= 33 else None, y if length >= 65 else None))
     return out
